@@ -63,22 +63,30 @@ Definition dec_payload (s : str) : option N :=
 (* scan_dpoint_exp + strtoexp: digits, optional point and digits, optional
    exponent (e or E, optional sign, at least one digit); at least one digit in the
    coefficient *)
+(* an optional '.' and the digits after it *)
+Definition scan_frac (r1 : str) : str * str :=
+  match r1 with
+  | 46 :: t => span is_ascii_digit t
+  | _ => ([], r1)
+  end.
+
+(* an optional sign: (is '-', rest) *)
+Definition split_pm (t : str) : bool * str :=
+  match t with
+  | 43 :: u => (false, u)
+  | 45 :: u => (true, u)
+  | _ => (false, t)
+  end.
+
 Definition scan_number (r : str) : option (str * Z) :=
   let '(ip, r1) := span is_ascii_digit r in
-  let '(fp, r2) := match r1 with
-                   | 46 :: t => span is_ascii_digit t
-                   | _ => ([], r1)
-                   end in
+  let '(fp, r2) := scan_frac r1 in
   if (length ip + length fp =? 0)%nat then None
   else match r2 with
        | [] => Some (ip ++ fp, - Z.of_nat (length fp))%Z
        | c :: t =>
            if (c =? 101) || (c =? 69) then
-             let '(eneg, ds) := match t with
-                                | 43 :: u => (false, u)
-                                | 45 :: u => (true, u)
-                                | _ => (false, t)
-                                end in
+             let '(eneg, ds) := split_pm t in
              if all_digits ds && negb (length ds =? 0)%nat then
                let ev := Z.of_N (str_val ds) in
                Some (ip ++ fp, (if eneg then - ev else ev) - Z.of_nat (length fp))%Z
@@ -93,11 +101,7 @@ Definition dec_parse_number (neg : bool) (r : str) : option pydec :=
   end.
 
 Definition dec_parse_ascii (s : str) : option pydec :=
-  let '(neg, r) := match s with
-                   | 43 :: t => (false, t)
-                   | 45 :: t => (true, t)
-                   | _ => (false, s)
-                   end in
+  let '(neg, r) := split_pm s in
   if starts_ci [110;97;110] r then option_map (DNaN neg false) (dec_payload (skipn 3 r))
   else if starts_ci [115;110;97;110] r then option_map (DNaN neg true) (dec_payload (skipn 4 r))
   else if starts_ci [105;110;102] r then
